@@ -144,7 +144,10 @@ class RefEval:
         if k in self.memo:
             return self.memo[k]
         self.keep.append(m)
-        r = self._eval(m)
+        try:
+            r = self._eval(m)
+        except (ZeroDivisionError, OverflowError, mpmath.libmp.NoConvergence) as ex:
+            r = R(RANGE, why=("arithmetic", type(ex).__name__))
         self.memo[k] = r
         return r
 
@@ -331,6 +334,8 @@ class RefEval:
             a = kids[0]
             if a.q is not None and a.q == 0:
                 return self._finish(m, mpf(1), Fraction(1), 0.0)
+            if abs(a.v) > 1e30:
+                return R(RANGE, why=("trig argument", M.text(m)[:80]))
             v = mpmath.cos(a.v)
             eps = (float(abs(mpmath.sin(a.v))) + a.eps) * a.eps + 2 * U * max(float(abs(v)), 1e-3)
             return self._finish(m, v, None, eps)
@@ -339,6 +344,8 @@ class RefEval:
             a = kids[0]
             if a.q is not None and a.q == 0:
                 return self._finish(m, mpf(0), Fraction(0), 0.0)
+            if abs(a.v) > 1e30:
+                return R(RANGE, why=("trig argument", M.text(m)[:80]))
             v = mpmath.sin(a.v)
             eps = (float(abs(mpmath.cos(a.v))) + a.eps) * a.eps + 2 * U * max(float(abs(v)), 1e-3 * min(1.0, float(abs(a.v))))
             return self._finish(m, v, None, eps)
